@@ -555,6 +555,7 @@ def gen_layout(repo, outdir):
 
 def write_if_changed(path, text):
     if os.path.exists(path) and open(path).read() == text: return
+    os.makedirs(os.path.dirname(os.path.abspath(path)), exist_ok=True)
     with open(path, "w") as f: f.write(text)
 
 TARGETS = {"layout": gen_layout}
